@@ -810,6 +810,21 @@ func handle(r *req) resp {
 			out["v"] = canonicalSQL(st)
 		})
 		return out
+	case "jointype":
+		out := resp{}
+		guard(out, func() {
+			m, err := joinTypePredicates(r.Text)
+			if err != nil {
+				out["r"] = "error"
+				out["msg"] = err.Error()
+				return
+			}
+			out["r"] = "ok"
+			for k, v := range m {
+				out[k] = v
+			}
+		})
+		return out
 	case "seq":
 		return opSeq(r)
 	case "conc":
